@@ -43,7 +43,10 @@ LEVEL_NOTE = (
     "buffers are lost) - additionally every byte offset of each write as the "
     "quantifier demands; not modelled: power loss reordering of un-synced "
     "data across files. Trusted: strace's syscall log; the materialiser is "
-    "conformance-checked against real kills at >=6 offsets per scenario"
+    "conformance-checked against real kills at >=5 offsets per scenario; "
+    "a second fault kind is enumerated with real writer processes: the "
+    "write failing with an I/O error at byte L (the writer dies of the "
+    "exception, its handlers and finally blocks run)"
 )
 RULE = (
     "crash states = prefixes of the strace effect log x byte offsets of the "
@@ -94,7 +97,8 @@ kw = spec["kw"]
 cls = getattr(ctg, spec["cls"])
 if {limit!r} is not None:
     import resource, signal
-    signal.signal(signal.SIGXFSZ, signal.SIG_DFL)
+    if {mode!r} == "kill":
+        signal.signal(signal.SIGXFSZ, signal.SIG_DFL)
     resource.setrlimit(resource.RLIMIT_FSIZE, ({limit!r}, {limit!r}))
 opt = cls(directory=spec["dir"], **kw)
 if spec.get("update_from_tree"):
@@ -106,10 +110,14 @@ print("WROTE")
 """
 
 
-def writer_script(spec, limit=None):
+def writer_script(spec, limit=None, mode="kill"):
+    """mode 'kill': the write at byte `limit` kills the process (SIGXFSZ);
+    mode 'raise': the write fails with OSError (file too large), i.e. the
+    writer dies of an unhandled I/O error, running its finally blocks"""
     from ..framework import REPO
 
-    return WRITER.format(repo=REPO, spec=json.dumps(spec), limit=limit)
+    return WRITER.format(repo=REPO, spec=json.dumps(spec), limit=limit,
+                         mode=mode)
 
 
 def same_bucket_sizes():
@@ -407,6 +415,40 @@ def work(unit):
                                     for n, c in norm_digest(kd)]})
                 else:
                     res.stat("real_kills_conform")
+        # ---- the writer dying of an I/O ERROR at byte L (disk full, quota,
+        # file-size limit): a real writer process per offset, whose failing
+        # write raises instead of killing - its exception handlers and
+        # finally blocks run before it dies
+        if wsizes and name != "cache-hit-reader":
+            total = sum(wsizes)
+            step = 1 if idx < 4 and not big else (7 if not big else 509)
+            for cut in sorted(set(range(0, total, step)) | {total - 1}):
+                kd = os.path.join(root, "ioerr")
+                if os.path.exists(kd):
+                    shutil.rmtree(kd)
+                shutil.copytree(pre_dir, kd)
+                kspec = dict(spec)
+                kspec["dir"] = kd
+                r = subprocess.run(
+                    [sys.executable, "-W", "ignore", "-c",
+                     writer_script(kspec, limit=cut, mode="raise")],
+                    capture_output=True, text=True,
+                    env={**os.environ, **env})
+                res.evals += 1
+                res.stat("write_error_deaths")
+                if r.returncode == 0:
+                    res.stat("write_error_did_not_die")
+                    continue
+                label = f"write-error-at-byte-{cut}/{total}"
+                res.key((name, label))
+                bad, searched = reader_checks(kd, pre_entries, query, layout,
+                                              res, label)
+                if bad:
+                    kind = bad[0][0].split(":")[0]
+                    res.violation(
+                        f"crash:{kind}:write-error",
+                        {"scenario": name, "crash_state": label,
+                         "all_effects": effects}, bad[:3], max_per_unit=2)
         res.sample({"scenario": name, "effects": effects,
                     "crash_states": len(states)}, cap=1)
     finally:
